@@ -299,6 +299,15 @@ func (f Wildcard) locate(pp Expr, data any, rest Expr, max int) (locs []Expr) {
 						}
 					}
 				}
+			case reflect.Map:
+				for _, k := range sortedMapKeys(rd) {
+					if rd.MapIndex(k).CanInterface() {
+						locs = locateAppendFrag(locs, pp, Child(k.String()))
+						if 0 < max && max <= len(locs) {
+							break
+						}
+					}
+				}
 			}
 		} else {
 			cp := append(pp, nil) // place holder
@@ -319,6 +328,17 @@ func (f Wildcard) locate(pp Expr, data any, rest Expr, max int) (locs []Expr) {
 					rv := rd.Index(i)
 					if rv.CanInterface() {
 						cp[len(pp)] = Nth(i)
+						locs = locateContinueFrag(locs, cp, rv.Interface(), rest, max)
+						if 0 < max && max <= len(locs) {
+							break
+						}
+					}
+				}
+			case reflect.Map:
+				for _, k := range sortedMapKeys(rd) {
+					rv := rd.MapIndex(k)
+					if rv.CanInterface() {
+						cp[len(pp)] = Child(k.String())
 						locs = locateContinueFrag(locs, cp, rv.Interface(), rest, max)
 						if 0 < max && max <= len(locs) {
 							break
